@@ -343,9 +343,15 @@ func (f *fields) setAt(idx int, parent, v value) {
 			f.a = tmp
 		}
 
+		// the elements filling the gap below idx exist because of v: they
+		// report the source v was read from
+		var meta *Meta
+		if v != nil {
+			meta = v.meta()
+		}
 		for i := l; i < idx; i++ {
 			ctx := context{parent: parent, field: fmt.Sprintf("%d", i)}
-			f.a[i] = &cfgNil{cfgPrimitive{ctx, nil}}
+			f.a[i] = &cfgNil{cfgPrimitive{ctx, meta}}
 		}
 	}
 
